@@ -149,7 +149,7 @@ Proof.
     rewrite owner_seg_big in O by exact BIG.
     assert (HB : forall h, In h hs -> h = HT TR).
     { intros h I. apply only_spec in O as [_ A]. exact (A h I). }
-    destruct a as [| | j | c | j pub | | | j | c | j | c w]; simpl in ST.
+    destruct a as [| | j | c | j pub | | | j | c | j | | c w]; simpl in ST.
     all: break_step ST.
     all: unfold wr, rd, nextacc.
     all: exists (Some hs); split;
@@ -157,7 +157,7 @@ Proof.
       | exists hs; split; [reflexivity | rewrite owner_seg_big by exact BIG; exact O] ]. }
   assert (HB : forall h, In h hs -> Hi_seg k i h).
   { intros h I. apply only_spec in O as [_ A]. rewrite (A h I). apply owner_seg_Hi. }
-  destruct a as [| | j | c | j pub | | | j | c | j | c w]; simpl in ST.
+  destruct a as [| | j | c | j pub | | | j | c | j | | c w]; simpl in ST.
   all: break_step ST.
   all: fix_leb.
   all: unfold wr, rd, nextacc.
